@@ -29,3 +29,83 @@ Proof. eexists. vm_compute. reflexivity. Qed.
 Example P_parse_critical_example :
   exists d, parse_file 100 [46; 97; 115; 99; 105; 105; 32; 34; 97] = PCritical d.
 Proof. eexists. vm_compute. reflexivity. Qed.
+
+(* ------------------------------------------------------------------------------------------------------------
+   Stage 3 -- spelling.  The whole-parser statements ("the tree is unchanged up to offsets / up to the stored
+   spelling") are NOT proved: they need a two-run simulation through every function of the model.  What is proved is
+   the part of them that is about characters, for every text; the rest (that the statement/expression functions only
+   combine these primitives) is tied by the respell streams of tools/p_corr.py (model = implementation on the respelled
+   texts) together with C10's metamorphic sweep on the implementation.  Hence the names *_partial. *)
+From Verif Require Import Model.SkipWs Proofs.StmtParseSpell.
+
+(* the model's Context.skip_whitespace is the function C10's theorems are about (C10_skip_ws, _idempotent, _stops,
+   _only_blank all transfer), with the position arithmetic *)
+Theorem P_skip_is_C10_skip :
+  forall c, rest (skip_ctx c) = skip (rest c) /\
+            pos (skip_ctx c) + N.of_nat (length (rest (skip_ctx c))) = pos c + N.of_nat (length (rest c)).
+Proof. exact skip_ctx_is_skip. Qed.
+Print Assumptions P_skip_is_C10_skip.
+
+(* horizontal blanks, newlines and closed comments before a position are absorbed by skip_whitespace *)
+Theorem P_blank_absorbed :
+  forall ws r p p', blank_run ws -> rest (skip_ctx (mkCtx p (ws ++ r))) = rest (skip_ctx (mkCtx p' r)).
+Proof. exact blank_absorbed. Qed.
+Print Assumptions P_blank_absorbed.
+
+(* token level: for every parser that skips blanks and then only looks at the text at ctx.pos, blank material
+   inserted before the token changes neither the value returned nor the text left (only offsets) ... *)
+Theorem P_blank_insensitive_partial :
+  forall (A : Type) (q : parser A) ws r p p2 d d2,
+    rest_det q -> blank_run ws ->
+    sim ((skip_ws ;;; q) (mkCtx p (ws ++ r)) d) ((skip_ws ;;; q) (mkCtx p2 r) d2).
+Proof. exact @token_blank_insensitive. Qed.
+Print Assumptions P_blank_insensitive_partial.
+
+(* ... and these are such parsers: every literal (so: comma, brackets, quotes, '=', ':', '^X' ..., every operator),
+   the three identifier regexes, the label regex, instruction_name, string_quote, caret_parenthesis, the three
+   operator alternatives *)
+Theorem P_token_parsers_rest_det :
+  (forall lit, rest_det (literal lit)) /\ rest_det symbol_literal /\ rest_det local_symbol_literal /\
+  rest_det label_name /\ rest_det instruction_name /\ rest_det string_quote /\ rest_det caret_parenthesis /\
+  rest_det infix_operator /\ rest_det prefix_operator /\ rest_det postfix_operator.
+Proof. exact token_parsers_rest_det. Qed.
+Print Assumptions P_token_parsers_rest_det.
+
+(* case, names: mnemonics, directive names (incl. the operand typing and the literal-string / min / max operand rows
+   read by instruction()), register names and the 'end' test see a name only through its ASCII lower-case form *)
+Theorem P_case_names_partial :
+  forall a b, Forall2 ceq a b ->
+    lookup_cmd a = lookup_cmd b /\ in_builtin a = in_builtin b /\ is_register_name a = is_register_name b /\
+    (forall idx c d, operand_type a idx c d = operand_type b idx c d) /\
+    (forall s e s2 e2 l1 l2 ops, is_end_insn (Insn s e (Symbol s2 e2 a l1) ops) = is_end_insn (Insn s e (Symbol s2 e2 b l2) ops)).
+Proof. exact case_names. Qed.
+Print Assumptions P_case_names_partial.
+
+(* case, literals and digits: radix prefixes (^X ^O ^B ^D, 0x 0o 0b), ^R, ^C and every operator literal match the
+   text through lower() only and leave case-related texts; digit strings that differ in case have the same value;
+   every character class of the regexes is case-blind, so identifier-shaped runs have the same extent *)
+Theorem P_case_literals_digits_partial :
+  (forall lit l l', Forall2 ceq l l' ->
+     match lit_match lit l, lit_match lit l' with
+     | Some r, Some r' => Forall2 ceq r r' | None, None => True | _, _ => False end) /\
+  (forall base l l' acc, Forall2 ceq l l' -> int_digits base l acc = int_digits base l' acc) /\
+  (forall base s s', Forall2 ceq s s' -> py_int base s = py_int base s') /\
+  (forall p l l' k, lower_inv p -> Forall2 ceq l l' ->
+     let '(m, r, n) := span_n p l k in let '(m', r', n') := span_n p l' k in
+     Forall2 ceq m m' /\ Forall2 ceq r r' /\ n = n') /\
+  (lower_inv is_digit /\ lower_inv is_alpha /\ lower_inv is_word /\ lower_inv is_insn_start /\ lower_inv is_sym_start /\
+   lower_inv is_sym_char /\ lower_inv is_space /\ lower_inv caret_paren_char /\ lower_inv rad50_class).
+Proof. exact case_literals_digits. Qed.
+Print Assumptions P_case_literals_digits_partial.
+
+Example P_blank_example :
+  blank_run [32; 9; 59; 99; 10; 32] /\
+  sim (comma (mkCtx 0 ([32; 9; 59; 99; 10; 32] ++ [44; 49])) []) (comma (mkCtx 7 [44; 49]) []).
+Proof.
+  split.
+  - apply br_blank; [reflexivity|]. apply br_blank; [reflexivity|].
+    apply (br_comment [99] [32]); [repeat constructor; discriminate|]. apply br_blank; [reflexivity | constructor].
+  - vm_compute. auto.
+Qed.
+Example P_case_example : Forall2 ceq [77; 111; 86] [109; 79; 118] /\ lookup_cmd [77; 111; 86] = lookup_cmd [109; 79; 118].
+Proof. split; [repeat constructor | vm_compute; reflexivity]. Qed.
